@@ -615,3 +615,246 @@ def replay(ctx, rep):   # noqa: F811
     if rep.get('case', {}).get('scenario') == 'live':
         return common.scenario_replay(ctx, rep, {'live': live_argument_scenarios})
     return _replay1(ctx, rep)
+
+
+# ---------------------------------------------------------------------------------------------------------------
+# slice access: c[a:b], c[a:b] = ys, del c[a:b] (step 1, optional bounds) - implementation vs Coq model
+# (Model/Slice.v, extracted run_slice; theorems C04_slice_* in Props/C04.v) vs plain Python list
+# ---------------------------------------------------------------------------------------------------------------
+def _btoks(v):
+    return [0, 0] if v is None else [1, v]
+
+
+def slice_op_tokens(op):
+    k = op[0]
+    if k == 'setslice':
+        return [9] + _btoks(op[1]) + _btoks(op[2]) + [len(op[3])] + list(op[3])
+    if k == 'delslice':
+        return [10] + _btoks(op[1]) + _btoks(op[2])
+    if k == 'getslice':
+        return [11] + _btoks(op[1]) + _btoks(op[2])
+    return op_tokens(op)
+
+
+def slice_apply_impl(impl, op):
+    """(outcome code, scalar result, returned elements)"""
+    c = impl.c
+    k = op[0]
+    if k not in ('setslice', 'delslice', 'getslice'):
+        r = impl.apply(op)
+        return (r[0], r[1], [])
+    try:
+        if k == 'setslice':
+            c[op[1]:op[2]] = [impl.v(x) for x in op[3]]
+            return (0, None, [])
+        if k == 'delslice':
+            del c[op[1]:op[2]]
+            return (0, None, [])
+        got = c[op[1]:op[2]]
+        ret = [impl.t(x) for x in got]
+        # what a slice returns is the caller's own copy: editing it must not reach the feature (compared right after)
+        for edit in (lambda: got.pop(), lambda: got.append(impl.v(impl.univ[-1])), lambda: got.insert(0, impl.v(impl.univ[0])),
+                     lambda: got.remove(impl.v(impl.univ[1])), lambda: got.clear()):
+            try:
+                edit()
+            except Exception:  # noqa
+                pass
+        return (0, None, ret)
+    except KeyError:
+        return (1, None, [])
+    except IndexError:
+        return (2, None, [])
+    except ValueError:
+        return (3, None, [])
+
+
+def slice_apply_list(L, op, unique):
+    """the property's reference for list-based collections: a plain Python list"""
+    k = op[0]
+    if k == 'setslice':
+        L[op[1]:op[2]] = list(op[3])
+        return ('ok', None, [])
+    if k == 'delslice':
+        del L[op[1]:op[2]]
+        return ('ok', None, [])
+    if k == 'getslice':
+        return ('ok', None, list(L[op[1]:op[2]]))
+    r = spec_apply(L, op, unique)
+    return (r[0], r[1], [])
+
+
+def _slice_history(rng, univ, unique, length):
+    ops = []
+    n = 0   # rough length estimate, only used to pick interesting bounds
+    for _ in range(length):
+        r = rng.random()
+
+        def bnd():
+            q = rng.random()
+            if q < 0.2:
+                return None
+            return rng.randrange(-n - 3, n + 4)
+        if r < 0.3:
+            ys = [rng.choice(univ) for _ in range(rng.randrange(0, 4))]
+            ops.append(('setslice', bnd(), bnd(), ys))
+            n = max(0, n + len(ys) - 1)
+        elif r < 0.45:
+            ops.append(('delslice', bnd(), bnd()))
+        elif r < 0.6:
+            ops.append(('getslice', bnd(), bnd()))
+        elif r < 0.8:
+            ops.append(('append', rng.choice(univ), 'append'))
+            n += 1
+        elif r < 0.87:
+            ops.append(('insert', rng.randrange(-n - 2, n + 3), rng.choice(univ)))
+            n += 1
+        elif r < 0.92:
+            ops.append(('extend', [rng.choice(univ) for _ in range(rng.randrange(0, 3))], 'extend'))
+            n += 2
+        elif r < 0.96:
+            ops.append(('pop', rng.randrange(-n - 1, n + 1)))
+        else:
+            ops.append(('setitem', rng.randrange(-n - 1, n + 1), rng.choice(univ)))
+    return ops
+
+
+def _slice_case(out, model, A, B, feats, decl, univ, ops, stats, tag):
+    kind, ordered, unique = decl
+    objs = [B() for _ in univ] if kind != 'attr' else None
+    impl = Impl(A, B, feats[decl], kind, univ, objs)
+    L = []
+    toks = [1 if unique else 0]
+    for p in ops:
+        toks += slice_op_tokens(p)
+    mo = model.ask('slice', toks)
+    pos = 0
+    hist = [['declare', kind, ordered, unique, tag]]
+    for op in ops:
+        hist.append([_j(x) for x in op])
+        pre = [impl.t(x) for x in impl.c]
+        try:
+            r = slice_apply_impl(impl, op)
+        except Exception as e:  # noqa
+            r = (9, type(e).__name__, [])
+        items = [impl.t(x) for x in impl.c]
+        stats[op[0]] = stats.get(op[0], 0) + 1
+        case = {'scenario': 'slice', 'seed': _SLICE_CTX[0], 'tier': _SLICE_CTX[1], 'history': list(hist)}
+        sig = {'property': 'C04', 'clause': 'slice-read' if op[0] == 'getslice' else 'slice-write', 'culprit': op[0],
+               'qualifiers': [], 'shape': {'kind': kind, 'unique': unique}}
+        # --- model segment: code has res |ret| ret.. |items| items.. ---
+        if pos + 4 > len(mo):
+            out.diff(f'slice model answer too short at {op} in {hist}', case)
+            return
+        code, has, res, nret = mo[pos:pos + 4]
+        ret = mo[pos + 4:pos + 4 + nret]
+        nit = mo[pos + 4 + nret]
+        mitems = mo[pos + 5 + nret:pos + 5 + nret + nit]
+        pos += 5 + nret + nit
+        # --- oracle ---
+        if not unique:
+            sr = slice_apply_list(L, op, unique)
+            if (r[0] == 0) != (sr[0] == 'ok') or (r[0] == 0 and (r[1] != sr[1] or r[2] != sr[2])) or items != L:
+                out.fail(sig, f'{op} on {pre}: impl outcome {r} items {items} vs plain list {sr} {L}', case)
+                return
+        else:
+            if r[0] != 0 and items != pre:
+                out.fail(sig, f'{op} on {pre}: refused ({r}) but the collection changed to {items}', case)
+                return
+            if len(set(items)) != len(items):
+                sig['clause'] = 'duplicate'
+                out.fail(sig, f'{op} on {pre}: unique collection holds {items}', case)
+                return
+        # positions and membership follow the items (for a unique collection they come from its index map)
+        for u in impl.univ:
+            want_in = u in items
+            try:
+                got_in = impl.v(u) in impl.c
+                got_ix = impl.c.index(impl.v(u)) if got_in else None
+            except (KeyError, ValueError):
+                got_in, got_ix = got_in if 'got_in' in dir() else None, 'raises'
+            if got_in != want_in or (want_in and got_ix != items.index(u)):
+                sig['clause'] = 'index=position'
+                out.fail(sig, f'after {op} on {pre}: items {items} but element {u}: in -> {got_in}, index -> {got_ix}', case)
+                return
+        # --- correspondence ---
+        mres = res if has else None
+        if (r[0] == 0) != (code == 0) or (r[0] == 0 and (r[1] != mres or r[2] != ret)) or items != mitems:
+            if r[0] == 9 or (not unique):
+                out.fail(sig, f'{op} on {pre}: impl {r} {items} vs model ({code},{mres},{ret}) {mitems}', case)
+            else:
+                out.diff(f'slice model vs impl after {op} from {pre}: model ({code},{mres},{ret}) {mitems} impl {r} {items}', case)
+            return
+
+
+_SLICE_CTX = [0, 'quick']
+
+
+def slice_scenarios(ctx, out):
+    common.use_repo()
+    _SLICE_CTX[:] = [ctx.seed, ctx.tier]
+    rng = common.rng_for(ctx.seed, 'C04:slice')
+    A, B, feats = make_mm()
+    model = common.Model()
+    thorough = ctx.tier == 'thorough'
+    stats = {}
+    ncase = 0
+    # exhaustive: one slice call on every list of length 0..N, every pair of bounds in {None} + [-n-2, n+2], |ys| <= 2
+    N = 3 if not thorough else 4
+    for kind in ('attr', 'ref'):
+        univ = [10, -1, 20, 30, 40] if kind == 'attr' else [1, 2, 3, 4, 5]
+        for unique in (False, True):
+            decl = (kind, True, unique)
+            for n in range(N + 1):
+                base = [('append', univ[i], 'append') for i in range(n)]
+                bounds = [None] + list(range(-n - 2, n + 3))
+                for a in bounds:
+                    for b in bounds:
+                        ops = list(base)
+                        ops.append(('getslice', a, b))
+                        for ys in ([], [univ[4]], [univ[4], univ[0]]):
+                            _slice_case(out, model, A, B, feats, decl, univ, base + [('setslice', a, b, ys)], stats, 'exh')
+                            ncase += 1
+                        ops.append(('delslice', a, b))
+                        _slice_case(out, model, A, B, feats, decl, univ, ops, stats, 'exh')
+                        ncase += 1
+    # random histories mixing element-level and slice calls
+    nrand = 400 if not thorough else 8000
+    for it in range(nrand):
+        kind = rng.choice(['attr', 'ref', 'cont'])
+        ordered, unique = rng.random() < 0.5, rng.random() < 0.35
+        univ = [10, -1, 20, 30] if kind == 'attr' else [1, 2, 3, 4]
+        ops = _slice_history(rng, univ, unique, rng.randrange(1, 10))
+        if kind == 'cont':
+            # a child sits in one place: containment collections get each child at most once per history
+            used, ops2 = set(), []
+            for op in ops:
+                vals = op[3] if op[0] == 'setslice' else (op[1] if op[0] == 'extend' else
+                                                          [op[2]] if op[0] in ('insert', 'setitem') else
+                                                          [op[1]] if op[0] == 'append' else [])
+                if any(v in used for v in vals) or len(set(vals)) != len(vals):
+                    continue
+                used.update(vals)
+                ops2.append(op)
+            ops = ops2
+        _slice_case(out, model, A, B, feats, (kind, ordered, unique), univ, ops, stats, f'rnd{it}')
+        ncase += 1
+    model.close()
+    out.coverage['slice_histories'] = ncase
+    out.coverage['slice_ops_by_kind'] = stats
+    out.assumptions.append('slices: step 1 with optional bounds are modelled (Model/Slice.v); extended slices are compared '
+                           'with the plain list only')
+
+
+_run2 = run
+_replay2 = replay
+
+
+def run(ctx, out):   # noqa: F811
+    _run2(ctx, out)
+    slice_scenarios(ctx, out)
+
+
+def replay(ctx, rep):   # noqa: F811
+    if rep.get('case', {}).get('scenario') == 'slice':
+        return common.scenario_replay(ctx, rep, {'slice': slice_scenarios})
+    return _replay2(ctx, rep)
